@@ -7,24 +7,7 @@ EXTENDS Journal, Json, IOUtils
 
 Traces == JsonDeserialize(IOEnv.TRACE_FILE)
 
-ToSet(s) == { s[i] : i \in DOMAIN s }
-
-\* st == [j, objs]
-Expected(st, o) ==
-    CASE o.op = "col" ->
-           LET r == CreateOrLoad(st.j, o.t, o.s) IN
-           [res |-> r.res, st |-> [j |-> r.j, objs |-> Append(st.objs, r.res)]]
-      [] o.op = "sessions" -> [res |-> SessionsOf(st.j), st |-> st]
-      [] o.op = "persist" ->
-           LET r == Persist(st.j, st.objs[o.so].key, o.dir, o.seq, o.data) IN
-           [res |-> r.res, st |-> [st EXCEPT !.j = r.j]]
-      [] o.op = "recover" -> [res |-> Recover(st.j, st.objs[o.so].key, o.dir, o.lo, o.hi), st |-> st]
-      [] o.op = "recover1" -> [res |-> Recover1(st.j, st.objs[o.so].key, o.dir, o.seq), st |-> st]
-      [] o.op = "getall" -> [res |-> GetAll(st.j, ToSet(o.keys), o.dir), st |-> st]
-      [] o.op = "setseq" ->
-           LET r == SetSeqNum(st.j, st.objs[o.so], o.a, o.b) IN
-           [res |-> [r |-> "ok", nout |-> r.so.nout, nin |-> r.so.nin],
-            st |-> [j |-> r.j, objs |-> [st.objs EXCEPT ![o.so] = r.so]]]
+Expected(st, o) == ApplyOp(st, o)
 
 Same(o, exp) ==
     IF o.op = "sessions" THEN ToSet(o.res) = exp
